@@ -15,7 +15,7 @@ from ..core.sched import scheduled
 
 PROPERTY = "C07"
 LEVEL = "model_checking"
-RULE = ("executions of Algorithm.evaluate(batch) with max_processes=2 under the controlled scheduler: 2 tasks without store: all "
+RULE = ("executions of Algorithm.evaluate(batch) with max_processes=2 under the controlled scheduler (batches of 0 and 1 designs included): 2 tasks without store: all "
         "interleavings; 2 tasks with a thread-safe SqliteDataStore: <=3 (quick) / <=4 (thorough) deviations (pre-emptions + busy-timeout "
         "expiries); 3 tasks on 2 workers: <=3 without store, <=2 / <=3 with store; a constrained problem (designs of differing feasibility, scheduling points inside the constraint function); an external lock holder (every upsert may find the database locked past the busy timeout, up to 6 times, every pattern); thorough adds line-level "
         "points with <=2 pre-emptions and transient objective failures in workers. states = distinct (per-worker position labels) vectors visited; transitions = scheduling steps executed; "
@@ -305,14 +305,16 @@ def run(tier, seed):
                   ("explore", 2, True, False, True, 3), ("explore", 4, True, False, False, 2),
                   ("explore", 2, False, False, "constrained", None), ("explore", 3, True, False, "constrained", 2),
                   ("explore", 2, False, True, "constrained", 2), ("explore", 2, True, False, "extlock", 1), ("explore", 3, True, False, "extlock", 0),
-                  ("free", 2, True, 50), ("free", 3, True, 50), ("free", 3, False, 50)]
+                  ("explore", 0, True, False, False, 0), ("explore", 1, True, False, False, 0), ("explore", 5, True, False, False, 1),
+                  ("free", 0, False, 2), ("free", 1, True, 2), ("free", 2, True, 50), ("free", 3, True, 50), ("free", 3, False, 50), ("free", 7, True, 20)]
     else:
         shards = [("explore", 2, False, False, False, None), ("explore", 2, True, False, False, 3),
                   ("explore", 3, False, False, False, 3), ("explore", 3, True, False, False, 2),
                   ("explore", 2, True, False, True, 1), ("explore", 2, False, True, False, 1),
                   ("explore", 2, False, False, "constrained", 3), ("explore", 3, True, False, "constrained", 1),
                   ("explore", 2, True, False, "extlock", 0),
-                  ("free", 2, True, 10), ("free", 3, False, 10)]
+                  ("explore", 0, True, False, False, 0), ("explore", 1, True, False, False, 0),
+                  ("free", 0, False, 2), ("free", 1, True, 2), ("free", 2, True, 10), ("free", 3, False, 10)]
     split = []
     for sh in shards:
         if sh[0] == "explore":
